@@ -21,6 +21,7 @@ RULE = ('Hypothesis-generated headers with 1-4 enumerations (1-12 members named 
         'underscore-prefixed and .c-file constants); thorough adds the exhaustive (unsigned type x boundary value) '
         'grid. non-trivial = an enum whose shared prefix goes beyond the namespace prefix together with a cast '
         'constant whose literal lies outside the cast type\'s range; distinct = hash of the case')
+RULE = RULE + ' ' + 'String constants include CR, LF and TAB.'
 ASSUMPTIONS = [
     'substrate P: cmodel.to_symbols mirrors scannerparser.y (DESIGN appendix D); the C lexer/parser is not exercised',
     'signed cast types and un-cast literals are generated in range only (the statement says "integers as written")',
